@@ -1,6 +1,7 @@
 SPEC = {
     "corr": [{"kind": "ipfix-cachefile", "quick": 2000, "thorough": 400000},
-             {"kind": "nf9-cachefile", "quick": 2000, "thorough": 400000}],
+             {"kind": "nf9-cachefile", "quick": 2000, "thorough": 400000},
+             {"kind": "jsonvalid", "quick": 20000, "thorough": 2000000}],
     "rule": "per session: 0..140 templates announced by several exporters, the real Dump, reload of the file, EVERY proper prefix of "
             "the file (all offsets up to 4000 octets, else first/last 1000 + 2000 sampled), 8 byte-/structure-level corruptions "
             "(dropped/null/duplicated shards, null or missing maps, wrong ShardNo, wrong types, deleted chunks, bit flips, other JSON "
